@@ -5,9 +5,9 @@ CONSTANTS
   PermuteModules = FALSE
   MaxP = 4
   Recvs = {"none", "const", "mut"}
-  Rets = {"none", "u32", "ptr", "missing"}
+  Rets = {"none", "u32", "ptr", "missing", "pvoid"}
   Addrs <- QAddrs
-  Seconds = {"none", "distinct", "dup", "inherited"}
+  Seconds = {"none", "distinct", "dup", "inherited", "blockaddr"}
   Bad = {0, 1, 2, 3, 4}
   Singles = {"none", "type", "enum", "opaque"}
   EvalKinds = {"none", "scalar", "ptr", "arr", "struct", "missing", "two"}
